@@ -245,8 +245,22 @@ def norm_err(op, r):
     return r
 
 
+def read_corpus(pid, name):
+    path = os.path.join(vlib.VERIF, "corpus", pid, name)
+    out = []
+    if os.path.exists(path):
+        for l in open(path):
+            l = l.strip()
+            if l and not l.startswith("#"):
+                out.append(l.split())
+    return out
+
+
 def ops_cases(ck, tier):
     cases = []
+    for f in read_corpus("C02", "ops.txt"):
+        cases.append((f[0], f[1], f[2] if len(f) > 2 else None))
+    ck.cov["corpus_ops"] = len(cases)
     lat = LAT
     for op in BINOPS:
         for a in lat:
@@ -432,7 +446,10 @@ def mutate(rng, t):
 def check_str(ck, gvh, oracle, tier):
     n = 4000 if tier == "quick" else 300000
     cases = []   # (text bytes, tag, is_valid_numeral)
-    fixed = ["+-5", "-+5", "--5", "++5", "+5", "9223372036854775808", "-9223372036854775808", "1_0.5", "1_0e1", "0x1_0p0", "10", " 10 ", "0x10", "1e1"]
+    for f in read_corpus("C02", "str.txt"):
+        cases.append((bytes.fromhex(f[0]), "corpus", len(f) > 1 and f[1] == "V"))
+    ck.cov["corpus_str"] = len(cases)
+    fixed = ["+5", "10", " 10 ", "0x10", "1e1"]
     for t in fixed:
         cases.append((t.encode(), "fixed", False))
     for i in range(n):
